@@ -23,6 +23,9 @@ CHECKS = {
             dict(pkg="table", run="^TestC03Hands$",
                  quick=dict(shards=2, checks=150, timeout=240),
                  thorough=dict(shards=8, checks=2500, timeout=1500)),
+            dict(pkg="table", run="^TestC03Pinned$",
+                 quick=dict(shards=1, checks=1, timeout=60),
+                 thorough=dict(shards=1, checks=1, timeout=60)),
         ],
         rule="(1) stateful sequences of <=30 membership operations (create-with-players, reserve fixed/random/taken/out-of-range/full, re-buy, join, leave one/several/unknown/mixed/duplicate, batch update valid/invalid) on one real TableEngine, seat counts 2..10; (2) the same predicate at every quiescent point of real table histories (after hands); oracle = three-way agreement seat map / player list / seat manager + reference seat model + error => table and seat manager byte-identical; non-trivial = a failing operation after a successful one, or re-use of a vacated seat; distinct = distinct op-class traces",
         mandatory=dict(quick=["err_full", "err_taken", "err_dup_batch", "err_unknown_leave", "err_mixed_leave", "err_range", "err_batch_overflow", "reuse_vacated", "random_seat", "after_hands", "N2", "N10"]),
@@ -60,7 +63,10 @@ CHECKS = {
     "C06": dict(
         parts=[dict(pkg="table", run="^TestC06$",
                     quick=dict(shards=4, checks=150, timeout=300),
-                    thorough=dict(shards=16, checks=2500, timeout=1800))],
+                    thorough=dict(shards=16, checks=2500, timeout=1800)),
+               dict(pkg="table", run="^TestC06Pinned$",
+                    quick=dict(shards=1, checks=1, timeout=120),
+                    thorough=dict(shards=1, checks=1, timeout=120))],
         rule='cases = default-rule histories weighted towards button configurations (live/dead dealer, live/dead SB, both dead, heads-up, 2..10 dealt in, sitting-out players between blinds, seat counts 2..10); oracle: validity predicates over the opened snapshot (bb label, sb/dealer labels, every dealt-in player labelled, no label twice, clockwise order from the BB = standard order for the slot count with dead entries removed), hand engine receives the same labels, next-BB order at settlement; non-trivial = a hand with a dead dealer or dead SB or slot count != dealt-in count; distinct = distinct abstract traces',
         mandatory=dict(quick=['dead_dealer', 'dead_sb', 'hu', 'k_3', 'k_6', 'next_bb_checked', 'N_2', 'N_10']),
         assumptions=ASSUME_COMMON,
@@ -76,7 +82,10 @@ CHECKS = {
     "C08": dict(
         parts=[dict(pkg="table", run="^TestC08$",
                     quick=dict(shards=8, checks=80, timeout=300),
-                    thorough=dict(shards=16, checks=2500, timeout=1800))],
+                    thorough=dict(shards=16, checks=2500, timeout=1800)),
+               dict(pkg="table", run="^TestC08Pinned$",
+                    quick=dict(shards=1, checks=1, timeout=120),
+                    thorough=dict(shards=1, checks=1, timeout=120))],
         rule="cases = histories engineered for awkward continuations (short stacks, heads-up busts with bystanders, everybody but one busting, arrivals during the hand and while the gate is armed, settlement-finish signals from every subset/order of the expected players incl. none and from non-expected players, breaks); the harness issues nothing but the drawn signals between settlement and the next open; oracle: pause iff break or fewer players with chips than the minimum, otherwise gate armed by the engine and the next hand opens (at once or after the 2 s timeout) and is played out; non-trivial = a continuation whose participants differ from the previous hand's, a partial signal set, or a pause; distinct = distinct abstract traces",
         mandatory=dict(quick=['signals_none', 'signals_some', 'signals_all', 'signals_extra', 'pause_min_players', 'pause_break', 'participants_changed', 'arrival_during_gate', 'all_but_one_bust']),
         assumptions=ASSUME_COMMON,
